@@ -127,6 +127,12 @@ pub fn eval(c: &ValidCase) -> Outcome {
     let (v, a) = accepted(&l, &run);
     let p = match parse(&run.out) {
         Ok(p) => p,
+        Err(e) if e.starts_with("counts: stts") || e.starts_with("counts: ctts") => {
+            // the timing table itself does not give every sample a decode delta / composition offset
+            let which = &e[8..12];
+            o.fail("coverage", format!("coverage.{}", which), format!("{}: not every sample of the track has its timing in the file", e));
+            return o;
+        }
         Err(_) => {
             o.class("unparseable_not_judged(C02)");
             return o;
@@ -143,7 +149,7 @@ pub fn eval(c: &ValidCase) -> Outcome {
     deltas.dedup();
     let reord = v.iter().any(|s| s.pts != s.dts);
     let ntsc = matches!(c.fps_mode, Some(2) | Some(5) | Some(8));
-    o.nontrivial = (v.len() >= 3 && deltas.len() >= 2) || (v.len() >= 3 && ntsc) || (v.len() >= 2 && reord);
+    o.nontrivial = (v.len() >= 3 && deltas.len() >= 2) || (v.len() >= 3 && ntsc) || (v.len() >= 2 && reord) || v.len() + a.len() > 1024;
     if v.iter().any(|s| s.pts < s.dts) {
         o.class("negative_cts");
     }
@@ -194,8 +200,8 @@ pub fn def() -> PropertyDef {
         level: "exploration",
         rule: "timelines in ticks (+ sub-tick jitter up to 0.49 tick) or computed as i/fps like a caller (incl. 1001-rates), VFR gaps 1 tick..2^32-1, \
                non-zero starts, reorderings with positive and negative composition offsets; stts/ctts/mdhd read back and compared with exact \
-               integer tick arithmetic; non-trivial = >=3 samples with >=2 distinct deltas, or a 1001-rate, or reordering",
+               integer tick arithmetic; non-trivial = >=3 samples with >=2 distinct deltas, or a 1001-rate, or reordering, or more than 1 024 samples",
         assumptions: &["half-tick ties (exact product within 2 ulp of .5) are accepted either way and counted as unconstrained"],
-        subs: vec![Box::new(PSub { name: "timing", quick: 30000, thorough: 800000, strat, eval })],
+        subs: vec![Box::new(PSub { name: "timing", quick: 30000, thorough: 800000, strat, eval }), Box::new(LSub { name: "long_recordings", cases: long_cases_all, eval, note: LONG_NOTE })],
     }
 }
